@@ -15,7 +15,9 @@ DRIVERS = ["drv_conv"]
 DRIVER_EXE = "drv_conv"
 RULE = ("every ordered pair (u,v) of units of every quantity type of the three self-built databases, through "
         "UnitDatabase.Convert, on seeded values (0, +-1, a magnitude in [1e-12,1e12], the pre-image of base 0 "
-        "of affine units and its float neighbours, ints; 15% of them inside a one-element list / tuple / ndarray); "
+        "of affine units and its float neighbours, ints; 20% of them through another entry point: inside a "
+        "one-element list / tuple / ndarray, the exponent-list form [(u,1)] -> [(v,1)], Scalar.GetValue, "
+        "Quantity.ConvertScalarValue); "
         "distinct = distinct (db, type, u, v, x); "
         "non-trivial = u != v and the conversion succeeded")
 EXHAUSTIVE = {"quick": False, "thorough": False}
@@ -58,6 +60,24 @@ def _convert(db, box, cq, u, v, x):
     container branches of Convert must agree with the float branch: same closures)"""
     if box == "num":
         return db.Convert(cq, u, v, x)
+    if box == "explist":
+        # the exponent-list form with exponent 1 must be the plain conversion (same closures)
+        return db.Convert(cq, [(u, 1)], [(v, 1)], x)
+    if box in ("scalar", "quantity"):
+        # the object routes: Scalar.GetValue / Quantity.ConvertScalarValue on a value of category `cat`
+        from barril.units import ObtainQuantity, Scalar
+        from barril.units.unit_database import UnitDatabase
+
+        cat = cq if cq in db.categories_to_quantity_types else db.GetDefaultCategory(u)
+        if cat is None or cat not in db.categories_to_quantity_types:
+            return db.Convert(cq, u, v, x)  # a database without categories has no value objects
+        UnitDatabase.PushSingleton(db)
+        try:
+            if box == "scalar":
+                return Scalar(x, u, cat).GetValue(v)
+            return ObtainQuantity(u, cat).ConvertScalarValue(float(x), v)
+        finally:
+            UnitDatabase.PopSingleton()
     if box == "list":
         r = db.Convert(cq, u, v, [x])
     elif box == "tuple":
@@ -90,7 +110,7 @@ def _pairs(ctx, nvals, salt):
                         cq = rng.choice(cats) if (cats and rng.random() < 0.3) else qt
                         if cq not in db.categories_to_quantity_types and cq not in db.quantity_types:
                             cq = qt
-                        box = "num" if rng.random() < 0.85 else rng.choice(["list", "tuple", "nd"])
+                        box = "num" if rng.random() < 0.8 else rng.choice(["list", "tuple", "nd", "explist", "scalar", "quantity"])
                         yield _case(kind, cq, u, v, w, x, box)
 
 
